@@ -559,8 +559,19 @@ def run_eq(sh, ctx):
 		k, p = rng.choice([(7, 'AT'), (8, 'AT'), (7, 'ATG')])
 		ks = KmerSpec(k, p)
 		sigs = make_sigs(rng, n, dt)
-		variant = rng.choice(['same', 'same', 'elem', 'len', 'k', 'prefix', 'dtype', 'order', 'prefix-case'])
+		variant = rng.choice(['same', 'same', 'elem', 'len', 'k', 'prefix', 'dtype', 'order', 'prefix-case', 'boundary', 'boundary'])
+		if variant == 'boundary':
+			# the same concatenated content, a signature boundary in a different place
+			if n < 2:
+				sigs = sigs + make_sigs(rng, 2 - n, dt); n = 2
+			i = rng.randrange(n - 1)
+			a = np.array(sorted(rng.sample(range(300), rng.randint(1, 6))), dtype=dt)
+			p1, p2 = rng.sample(range(len(a) + 1), 2) if len(a) >= 1 else (0, 0)
+			sigs = sigs[:i] + [a[:p1], a[p1:]] + sigs[i + 2:]
 		sigs2, ks2, dt2, equal = [s.copy() for s in sigs], ks, dt, True
+		if variant == 'boundary':
+			sigs2[i], sigs2[i + 1] = a[:p2].copy(), a[p2:].copy()
+			equal = False
 		if variant == 'elem' and n:
 			i = rng.randrange(n); sigs2[i] = np.array(sorted(set(sigs2[i].tolist()) ^ {299}), dtype=dt); equal = False
 		elif variant == 'len':
@@ -650,7 +661,7 @@ def run_shard(sh, ctx):
 def finalize(merged, tier, seed, inconclusive):
 	c = merged['counters']
 	for n in ['class:slice', 'class:mask-ndarray', 'class:mask-wrong-length', 'class:intarray:u8', 'class:intarray:i1', 'class:int:np.u8', 'class:int-oob:int',
-	          'class:illtyped', 'class:slice-illtyped', 'class:aliasing', 'class:nested:as-is', 'class:nested-slice', 'class:long-iter', 'class:shared-buffer:array.array', 'class:shared-buffer:__array__', 'long-negative:i1', 'long-negative:i2', 'long-eq:file-vs-file', 'histories', 'op:setslice', 'op:delslice', 'oob_mutations_refused', 'eq:same', 'eq:k', 'eq:prefix', 'eq:elem', 'eq:dtype']:
+	          'class:illtyped', 'class:slice-illtyped', 'class:aliasing', 'class:nested:as-is', 'class:nested-slice', 'class:long-iter', 'class:shared-buffer:array.array', 'class:shared-buffer:__array__', 'long-negative:i1', 'long-negative:i2', 'long-eq:file-vs-file', 'histories', 'op:setslice', 'op:delslice', 'oob_mutations_refused', 'eq:same', 'eq:k', 'eq:prefix', 'eq:elem', 'eq:dtype', 'eq:boundary']:
 		if c.get(n, 0) == 0:
 			inconclusive.append(f'class never observed: {n}')
 	return dict(exhaustive=True, exhaustive_note='index-* shards enumerate every int, slice and (for n<=5) mask over the stated ranges for collection lengths 0..7; histories and equality pairs are sampled')
